@@ -534,8 +534,12 @@ namespace Pistache::Async
                 // the callback has returned: the derived Promise<void> is fulfilled
                 void finishResolve() const
                 {
+                    PV_YIELD("chain.begin");
+                    PV_LOCK(this->chain_->mtx, "chain.lock");
                     std::unique_lock<std::mutex> guard(this->chain_->mtx);
+                    PV_YIELD("chain.locked");
                     this->chain_->state = State::Fulfilled;
+                    PV_YIELD("chain.constructed");
                     for (const auto& req : this->chain_->requests)
                     {
                         req->resolve(this->chain_);
@@ -571,8 +575,12 @@ namespace Pistache::Async
                 // the callback has returned: the derived Promise<void> is fulfilled
                 void finishResolve() const
                 {
+                    PV_YIELD("chain.begin");
+                    PV_LOCK(this->chain_->mtx, "chain.lock");
                     std::unique_lock<std::mutex> guard(this->chain_->mtx);
+                    PV_YIELD("chain.locked");
                     this->chain_->state = State::Fulfilled;
+                    PV_YIELD("chain.constructed");
                     for (const auto& req : this->chain_->requests)
                     {
                         req->resolve(this->chain_);
